@@ -292,6 +292,35 @@ def make_config_dir(scratch, repo, edits):
     return d
 
 
+_gen_cache = {}
+
+
+def gen_headers(repo):
+    """Regenerate the configure-generated headers (include/libast/types.h from types.h.in, sysdefs.h from
+    sysdefs.h.in) into a scratch include dir with the tree's own config.status, so that an edit of a
+    template is analysed even though `make` is never run.  Returns ['-I<dir>'] or [] when not possible."""
+    if repo in _gen_cache:
+        return _gen_cache[repo]
+    res = []
+    cs = os.path.join(repo, "config.status")
+    tin = os.path.join(repo, "include", "libast", "types.h.in")
+    sin = os.path.join(repo, "include", "libast", "sysdefs.h.in")
+    if os.path.exists(cs) and os.path.exists(tin):
+        d = tempfile.mkdtemp(prefix="gen", dir=scratch_dir())
+        os.makedirs(os.path.join(d, "libast"))
+        cmd = ["/bin/sh", cs, "--file=libast/types.h:" + tin]
+        if os.path.exists(sin):
+            cmd.append("--header=libast/sysdefs.h:" + sin)
+        try:
+            p = subprocess.run(cmd, cwd=d, stdout=subprocess.PIPE, stderr=subprocess.STDOUT, text=True, timeout=60)
+            if p.returncode == 0 and os.path.exists(os.path.join(d, "libast", "types.h")):
+                res = ["-I" + d]
+        except (OSError, subprocess.SubprocessError):
+            res = []
+    _gen_cache[repo] = res
+    return res
+
+
 def _run_plugin(args):
     srcdir, unit, flags, out, extra = args
     cmd = ["clang", "-fsyntax-only", "-w", "-fplugin=" + PLUGIN, "-Xclang", "-plugin", "-Xclang", "lafacts",
@@ -332,7 +361,7 @@ def extract(repo=None, units=None, config_edits=None, extra_flags=None, srcdir=N
     if only:
         units = [u for u in units if u in only]
     scratch = scratch_dir()
-    extra = list(extra_flags or [])
+    extra = gen_headers(repo) + list(extra_flags or [])
     if config_edits:
         d = make_config_dir(scratch, repo, config_edits)
         extra = ["-I" + d] + extra
@@ -356,7 +385,7 @@ def extract_file(path, repo=None, config_edits=None, extra_flags=None):
         raise AnalysisBroken("plugin %s not built (run setup)" % PLUGIN)
     flags, _ = build_settings(repo)
     scratch = scratch_dir()
-    extra = list(extra_flags or [])
+    extra = gen_headers(repo) + list(extra_flags or [])
     if config_edits:
         extra = ["-I" + make_config_dir(scratch, repo, config_edits)] + extra
     out = os.path.join(scratch, "probe.json")
